@@ -254,7 +254,7 @@ def corrupt(rng, sg):
 
 
 def run_cli(args, cwd):
-    env = dict(os.environ, PYTHONPATH="/repo", PYTHONWARNINGS="ignore")
+    env = dict(os.environ, PYTHONPATH=os.environ.get("VERIF_REPO", "/repo"), PYTHONWARNINGS="ignore")
     p = subprocess.run(["/venv/bin/python", "-m", "pyshacl"] + args, cwd=cwd, env=env, stdout=subprocess.PIPE, stderr=subprocess.PIPE, timeout=120)
     return p.returncode, p.stdout.decode("utf-8", "replace"), p.stderr.decode("utf-8", "replace")
 
